@@ -15,6 +15,7 @@ kinds of cases
            after shelve (or the error), tree after unshelve
 The oracle checks the property itself on the observations (independent of the Coq model).
 """
+import atexit
 import io
 import itertools
 import os
@@ -88,8 +89,11 @@ def _fresh():
     if _state["dir"] is None or not os.path.isdir(_state["dir"]):
         import breezy
         import breezy.bzr  # noqa
+        if _state.get("own"):
+            shutil.rmtree(_state["own"], ignore_errors=True)
         _state["own"] = tempfile.mkdtemp(prefix="verif-c15-")
         _state["dir"] = _state["own"]
+        atexit.register(shutil.rmtree, _state["own"], True)
     _state["n"] += 1
     return os.path.join(_state["dir"], "c%d" % _state["n"])
 
@@ -549,6 +553,8 @@ def impl_obs(inp, obs):
         return [offered, Tag("shelf-not-wf"), None]
     if err is not None:
         return [offered, err, None]
+    if _path_reuse(inp):
+        return [offered, after, Tag("path-reuse")]
     if isinstance(ures, Err) or isinstance(unsh, Err) or ures != 0:
         return [offered, after, Tag("conflict")]
     touched = {i for _, i in inp["sel"]}
@@ -727,8 +733,9 @@ def corpus():
     out.append({"kind": "tree", "basis": [], "wt": [[1, 0, "d", "d", b"", False], [2, 1, "f", "f", b"f\n", False]],
                 "sel": [["add", 2]]})
     out.append({"kind": "tree",
-                "basis": [[1, 0, "b", "f", b"2\n", False], [2, 0, "c", "d", b"", False], [3, 2, "b", "l", b"t2", False]],
-                "wt": [[1, 2, "b", "l", b"t5", False], [2, 0, "a", "d", b"", False]],
+                "basis": [[1, 0, "b", "f", b"2\n", False], [2, 0, "c", "d", b"", False], [3, 2, "b", "l", b"t2", False],
+                          [4, 2, "a", "l", b"t1", False]],
+                "wt": [[1, 2, "b", "l", b"t5", False], [2, 0, "a", "d", b"", False], [4, 2, "a", "l", b"t1", False]],
                 "sel": [["del", 3], ["kind", 1], ["ren", 1]]})
     out.append({"kind": "tree", "basis": [[1, 0, "a", "d", b"", False], [2, 1, "b", "d", b"", False]],
                 "wt": [[2, 0, "b", "d", b"", False], [1, 2, "a", "d", b"", False]], "sel": [["ren", 2]]})
